@@ -3,8 +3,8 @@
 cd /verif
 mkdir -p work/seedres5
 for p in "$@"; do for m in mut9 mut10; do
-  [ -f /tmp/seed5/$p/$m/patch.diff ] && [ ! -f work/seedres5/$p-$m.json ] && echo "$p $m"
-done; done | xargs -P 4 -L 1 sh -c './seedval.py $0 $1 --src /tmp/seed5/$0/$1 --keep > work/seedres5/$0-$1.json 2>&1; python3 -c "
+  [ -f /verif/seeded/$p-$m/patch.diff ] && [ ! -f work/seedres5/$p-$m.json ] && echo "$p $m"
+done; done | xargs -P 4 -L 1 sh -c './seedval.py $0 $1 --src /verif/seeded/$0-$1 --keep > work/seedres5/$0-$1.json 2>&1; python3 -c "
 import json
 try:
   r=json.load(open(\"work/seedres5/$0-$1.json\")); print(r[\"property\"],r[\"mutant\"],\"applies\",r.get(\"applies\"),\"demo_ok\",r.get(\"demo_ok\"),\"suite\",r.get(\"suite_passes_with_patch\"),\"caught_by\",r.get(\"caught_by\"))
